@@ -36,6 +36,10 @@ typedef struct
 	int errors ;
 	int	code_count, pcm_count ;
 
+	/* A decoded sample that did not fit an odd length read request. */
+	int		pcm_held ;
+	short	held ;
+
 	unsigned char	codes [IMA_OKI_ADPCM_CODE_LEN] ;
 	short 			pcm [IMA_OKI_ADPCM_PCM_LEN] ;
 } IMA_OKI_ADPCM ;
